@@ -93,6 +93,15 @@ Proof. vm_compute. reflexivity. Qed.
 Lemma split_xsi_type : Bind.split_qname XSI_TYPE = q_xsi_type.
 Proof. vm_compute. reflexivity. Qed.
 
+Lemma NoDup_app_intro' {A} (a b : list A) :
+  NoDup a -> NoDup b -> (forall x, In x a -> In x b -> False) -> NoDup (a ++ b).
+Proof.
+  induction a as [|x a IH]; intros Ha Hb Hd; [exact Hb|]. inversion Ha as [|? ? Hx Ha']; subst.
+  cbn [app]. constructor.
+  - intros Hi. apply in_app_or in Hi as [Hi|Hi]; [exact (Hx Hi)|]. apply (Hd x); [left; reflexivity|exact Hi].
+  - apply IH; [exact Ha'|exact Hb|]. intros y Hy1 Hy2. apply (Hd y); [right; exact Hy1|exact Hy2].
+Qed.
+
 Section Tree.
   Variable c : conv.
   Variable u : universe.
@@ -236,31 +245,38 @@ Section Tree.
   Qed.
 
   (* ---------------------------------------------------------------- one object *)
-  Lemma den_obj : forall n cl o qn,
+  Lemma den_obj : forall n cl o qn xsi,
     wfr cl -> fits n cl o = true ->
-    den (gobj n qn o) = [eobj n qn o] /\ attrs_present (item_of c (gobj n qn o)) = true.
+    den (add_xsi_g xsi (gobj n qn o)) = [add_xsi_e xsi (eobj n qn o)]
+    /\ attrs_present (item_of c (add_xsi_g xsi (gobj n qn o))) = true.
   Proof.
-    induction n as [|n IH]; intros cl o qn Hwf Hfit; [discriminate|].
+    induction n as [|n IH]; intros cl o qn xsi Hwf Hfit; [discriminate|].
     destruct (fits_inv c u ok pyspace n cl o Hfit) as [fs [m [-> [Hm [Hnames [Hfa [Hfe Hft]]]]]]].
     destruct (wfr_inv u cl Hwf) as [m' [Hm' [Hmc [Hwc Hnest]]]]. rewrite Hm in Hm'. inversion Hm'; subst m'. clear Hm'.
-    cbn [RoundtripGen.gobj RoundtripGen.eobj]. rewrite Hm.
+    cbn [RoundtripGen.gobj RoundtripGen.eobj]. rewrite Hm. cbn [add_xsi_g add_xsi_e].
     set (q := match qn with Some ((_ :: _) as q) => q | _ => m_qname m end).
-    set (gats := flat_map (fun var => g_attr c u ign var (field_of fs var)) (get_attribute_vars m)).
+    set (gats0 := flat_map (fun var => g_attr c u ign var (field_of fs var)) (get_attribute_vars m)).
+    set (gats := gats0 ++ xsi_attr_g xsi).
     pose proof (class_pairs_fits c u ok _ _ cl fs m Hwc Hnames Hfe) as Hps.
     set (gks := flat_map (fun vv => g_field c u (gobj n) (fst vv) (snd vv)) (pairs cl fs m)).
     (* attributes *)
-    assert (Hrel : Forall2 attr_rel (map (fun a => (of_qname (fst a), of_wval c (snd a))) gats)
+    assert (Hrel0 : Forall2 attr_rel (map (fun a => (of_qname (fst a), of_wval c (snd a))) gats0)
                      (flat_map (fun var => e_attr c u ign var (field_of fs var)) (get_attribute_vars m))).
-    { unfold gats. rewrite map_flat_map_l. apply Forall2_flat_map. intros var Hin.
+    { unfold gats0. rewrite map_flat_map_l. apply Forall2_flat_map. intros var Hin.
       destruct (wf_class_avar m var Hwc Hin) as [Hwa Hina]. apply attr_rel_field; [exact Hwa|].
       apply (Hfa _ Hina). }
+    assert (Hrel : Forall2 attr_rel (map (fun a => (of_qname (fst a), of_wval c (snd a))) gats)
+                     (flat_map (fun var => e_attr c u ign var (field_of fs var)) (get_attribute_vars m) ++ xsi_attr_e xsi)).
+    { unfold gats. rewrite map_app. apply Forall2_app; [exact Hrel0|].
+      destruct xsi as [[|ch xq]|]; cbn [xsi_attr_g xsi_attr_e map]; try constructor; [|constructor].
+      unfold attr_rel. cbn [fst snd]. repeat split. }
     assert (Hkeys : forall var, In var (get_attribute_vars m) ->
               e_attr c u ign var (field_of fs var) = []
               \/ exists b, e_attr c u ign var (field_of fs var) = [b] /\ fst b = Bind.split_qname (v_qname var)).
     { intros var _. unfold e_attr. destruct (field_of fs var); try (left; reflexivity);
         (destruct (is_array _ && negb (py_truthy _)); [left; reflexivity|];
          destruct (ign && opt_skip var _); [left; reflexivity|]; right; eexists; split; reflexivity). }
-    assert (Hnd : NoDup (map fst (flat_map (fun var => e_attr c u ign var (field_of fs var)) (get_attribute_vars m)))).
+    assert (Hnd0 : NoDup (map fst (flat_map (fun var => e_attr c u ign var (field_of fs var)) (get_attribute_vars m)))).
     { apply (nodup_flat_opt (fun var => Bind.split_qname (v_qname var)) fst); [|exact Hkeys].
       destruct (wf_class_inv m Hwc) as [F1 F2 F3 F4 F5 F6 F7 F8 F9 F10 F11 F12 F13].
       rewrite (avars_eq m Hwc). apply (sort_nodup_map (fun var => Bind.split_qname (v_qname var))).
@@ -272,13 +288,25 @@ Section Tree.
         apply str_eqb_eq in Hq. cbn beta. f_equal. exact Hq. }
       rewrite E. apply FinFun.Injective_map_NoDup; [|exact F10].
       intros a b. apply split_qname_inj. }
-    assert (Hnonil : forall a, In a (flat_map (fun var => e_attr c u ign var (field_of fs var)) (get_attribute_vars m)) ->
-                fst a <> q_xsi_nil).
+    assert (Hnores : forall a, In a (flat_map (fun var => e_attr c u ign var (field_of fs var)) (get_attribute_vars m)) ->
+                fst a <> q_xsi_nil /\ fst a <> Bind.split_qname XSI_TYPE).
     { intros a Ha. apply in_flat_map in Ha as [var [Hvar Ha]].
       destruct (Hkeys var Hvar) as [E|[b [E Hk]]]; rewrite E in Ha; [destruct Ha|]. destruct Ha as [<-|[]].
-      rewrite Hk, <- split_xsi_nil. intros Es. apply split_qname_inj in Es.
       destruct (wf_class_avar m var Hwc Hvar) as [Hwa _]. destruct (wf_attr_inv var Hwa) as [_ [_ [_ [_ [Hr _]]]]].
-      unfold reserved_name in Hr. rewrite Es, str_eqb_refl in Hr. discriminate. }
+      rewrite Hk. split.
+      - rewrite <- split_xsi_nil. intros Es. apply split_qname_inj in Es.
+        unfold reserved_name in Hr. rewrite Es, str_eqb_refl in Hr. discriminate.
+      - intros Es. apply split_qname_inj in Es.
+        unfold reserved_name in Hr. rewrite Es, str_eqb_refl, orb_true_r in Hr. discriminate. }
+    assert (Hnd : NoDup (map fst (flat_map (fun var => e_attr c u ign var (field_of fs var)) (get_attribute_vars m) ++ xsi_attr_e xsi))).
+    { rewrite map_app. destruct xsi as [[|ch xq]|]; cbn [xsi_attr_e map]; rewrite ?app_nil_r; try exact Hnd0.
+      apply NoDup_app_intro'; [exact Hnd0|constructor; [intros []|constructor]|].
+      intros x Hx [<-|[]]. apply in_map_iff in Hx as [a [Ea Ha]]. destruct (Hnores a Ha) as [_ H2]. exact (H2 Ea). }
+    assert (Hnonil : forall a, In a (flat_map (fun var => e_attr c u ign var (field_of fs var)) (get_attribute_vars m) ++ xsi_attr_e xsi) ->
+                fst a <> q_xsi_nil).
+    { intros a Ha. apply in_app_or in Ha as [Ha|Ha]; [apply (Hnores a Ha)|].
+      destruct xsi as [[|ch xq]|]; cbn [xsi_attr_e] in Ha; [destruct Ha| |destruct Ha]. destruct Ha as [<-|[]].
+      cbn [fst]. rewrite split_xsi_type. vm_compute. discriminate. }
     (* content *)
     assert (Hkids : flat_map den gks = flat_map (fun vv => e_field c u (eobj n) (fst vv) (snd vv)) (pairs cl fs m)
                     /\ forallb (fun k => attrs_present (item_of c k)) gks = true).
@@ -306,9 +334,12 @@ Section Tree.
             assert (Hobj : forall y, fits_item c u ok (fits n) var y = true ->
                       den (g_item c u (gobj n) var y) = [e_item c u (eobj n) var y]
                       /\ attrs_present (item_of c (g_item c u (gobj n) var y)) = true).
-            { intros y Hfy. destruct (fits_item_class c u ok _ var k y Htys Hfy) as [cl' [fs' [-> Hr]]].
-              cbn [g_item e_item]. apply (IH k); [|exact Hr].
-              apply (Hnest _ var k Hine (or_introl eq_refl) Hcl). }
+            { intros y Hfy. destruct (fits_item_class c u ok _ var k y Htys Hfy) as [cl' [fs' [-> [[-> Hr]|[Hdok Hr]]]]].
+              - cbn [g_item e_item]. apply (IH k); [|exact Hr].
+                apply (Hnest _ var k Hine (or_introl eq_refl) Hcl).
+              - cbn [g_item e_item]. apply (IH cl'); [|exact Hr].
+                destruct (derived_ok_inv c u ok var k cl' Hdok) as [Hne [Hsub [mk [mkd [t [Hmk _]]]]]].
+                apply (wfr_sub u cl m _ var k cl' Hwf Hm Hine (or_introl eq_refl) Hcl); [congruence|exact Hne|exact Hsub]. }
             destruct Hsrc as [Hw|[f0 [t0 [l0 [Hf0 [_ [_ [El Hil]]]]]]]]; cbn [fst snd] in *.
             2:{ rewrite El in Hfv0. unfold Fits.fits_elem in Hfv0. rewrite Hf0, Htf in Hfv0.
                 apply andb_true_iff in Hfv0 as [_ Hfl]. rewrite forallb_forall in Hfl. specialize (Hfl x Hil).
@@ -424,7 +455,8 @@ Section Tree.
     wfr cl -> fits n cl o = true ->
     itree_of_events (map (of_wevent c) (bflat (gobj n None o))) = Some (eobj n None o).
   Proof.
-    intros n cl o Hwf Hfit. destruct (den_obj n cl o None Hwf Hfit) as [Hd Hp].
+    intros n cl o Hwf Hfit. destruct (den_obj n cl o None None Hwf Hfit) as [Hd Hp].
+    rewrite add_xsi_g_none, add_xsi_e_none in Hd. rewrite add_xsi_g_none in Hp.
     rewrite flatten_item_of. apply itree_of_denote; [|exact Hp|exact Hd].
     destruct n; [discriminate|]. destruct (fits_inv c u ok pyspace n cl o Hfit) as [fs [m [-> [Hm _]]]].
     cbn [RoundtripGen.gobj]. rewrite Hm. exact I.
